@@ -289,7 +289,9 @@ pub fn gen_font(rng: &mut Rng, size_class: u64) -> (String, Features) {
             let k = rng.range_usize(1, 6).max(pending_skip_guard);
             for j in 0..k {
                 // inside the range a SKIP jumps over: usually label the step, else it is dead code
-                if pending_skip_guard > 1 && rng.chance(3, 4) {
+                // (inside a long skipped range only now and then, or the labels run out before
+                // the table passes step 255 and no entry point above 255 is ever produced)
+                if pending_skip_guard > 1 && rng.chance(if pending_skip_guard > 8 { 1 } else { 6 }, 8) {
                     if let Some(c) = labelled.pop() {
                         out.push_str(&format!("   (LABEL {})\n", chr(rng, c)));
                         f.labels += 1;
@@ -308,7 +310,7 @@ pub fn gen_font(rng: &mut Rng, size_class: u64) -> (String, Features) {
                 // an occasional SKIP over the following 1..3 instructions (which we then emit)
                 if j + 1 < k && rng.chance(1, 25) && pending_skip_guard == 0 {
                     // mostly 1..3; sometimes up to the field maximum of 127
-                    let s = if rng.chance(1, 5) {
+                    let s = if f.big_skips == 0 && rng.chance(1, 4) {
                         *rng.pick(&[100usize, 126, 127, 127])
                     } else {
                         rng.range_usize(1, 3)
